@@ -3,6 +3,7 @@
 package hx
 
 import (
+	"github.com/goghcrow/yae/compiler"
 	"github.com/goghcrow/yae/parser"
 	"github.com/goghcrow/yae/parser/ast"
 	"github.com/goghcrow/yae/parser/lexer"
@@ -195,12 +196,45 @@ func H10_reuse() {
 		c := sv.Outcome(func() { ex, ty = e.CheckAST(p, map[string]*types.Type{"x": t, "c": types.Bool}, names) })
 		return ex, ty, c
 	}
-	_, _, c1 := compile(parsed, t1)
+	e1, ty1, c1 := compile(parsed, t1)
 	sv.Assert("original-untouched-by-compilation", Shape(parsed) == before)
+	// the first compilation's closures, built before the tree is compiled again
+	var first [NBackends]compiler.Closure
+	var firstCls [NBackends]string
+	if c1 == "ok" && reuseFirst {
+		for b := 0; b < NBackends; b++ {
+			bb := b
+			firstCls[b] = sv.Outcome(func() { first[bb] = Backend(bb)(e1, e.Rt) })
+		}
+	}
 	e2, ty2, c2 := compile(parsed, t2)
 	ef, tyf, cf := compile(fresh, t2)
 	_ = c1
 	sv.Assert("second-compilation-accepts-what-a-fresh-parse-accepts", (c2 == "ok") == (cf == "ok"))
+	if c1 == "ok" && reuseFirst {
+		// ... and evaluated after it: still the program compiled for T1
+		var fresh1 ast.Expr
+		sv.Outcome(func() { fresh1 = e.Parse(src) })
+		ef1, tyf1, cf1 := compile(fresh1, t1)
+		sv.Assert("first-compilation-is-that-of-a-fresh-parse", cf1 == "ok" && RefTypeEq(ty1, tyf1))
+		if cf1 == "ok" {
+			ConcreteTimes = true
+			NumPool = []float64{1, 2.5}
+			MaxLenQuick = 1
+			vals1 := map[string]*val.Val{"x": AnyVal(t1, "x1"), "c": val.True}
+			NumPool = nil
+			MaxLenQuick = 3
+			rf1, kf1 := runAll(e, ef1, vals1, names)
+			for b := 0; b < NBackends; b++ {
+				if firstCls[b] != "ok" {
+					sv.Assert("first-closure-built-alike:"+BackendNames[b], kf1[b] != "ok")
+					continue
+				}
+				r1, k1 := e.Run(first[b], vals1, names)
+				sv.Assert("first-closure-unaffected-by-the-second-compilation:"+BackendNames[b], k1 == kf1[b] && (k1 != "ok" || (RefSameVal(r1, rf1[b]) && RefWellTyped(r1, ty1) == "")))
+			}
+		}
+	}
 	if c2 != "ok" || cf != "ok" {
 		sv.Reach("rejected")
 		return
@@ -221,6 +255,20 @@ func H10_reuse() {
 		}
 	}
 	sv.Reach("compared")
+}
+
+// reuseFirst adds the C01 half to H10_reuse (H01_reuse): the closures of the
+// first compilation, built before the tree is compiled a second time for
+// another environment and evaluated after it, still yield values of the type
+// inferred for them.
+var reuseFirst bool
+
+// H01_reuse: preservation for a closure whose parsed tree was afterwards
+// compiled again against another environment.
+func H01_reuse() {
+	reuseFirst = true
+	H10_reuse()
+	reuseFirst = false
 }
 
 // H10_ops: `o.f(args)` means exactly `f(o, args)` under every operator table:
